@@ -113,6 +113,30 @@ def optTable (ps : List Param) : List OptSpec := helpOpt :: paramOpts ps
 def findShort (tbl : List OptSpec) (c : Char) : Option OptSpec := tbl.find? fun o => o.short == some c
 def findLong (tbl : List OptSpec) (n : Str) : Option OptSpec := tbl.find? fun o => o.long == n
 
+/-- the long options of which `--n` is an abbreviation (argparse's `_get_option_tuples`: `option_string.startswith`) -/
+def longMatches (tbl : List OptSpec) (n : Str) : List OptSpec := tbl.filter fun o => n.isPrefixOf o.long
+
+/-- what argparse's `_parse_optional` (`allow_abbrev`, the default) makes of the name of a long option -/
+inductive Resolved
+  | one (o : OptSpec)       -- an exact option string, or else the prefix of exactly one
+  | ambiguous               -- no exact option string, and the prefix of two or more: `ambiguous option`
+  | unknown                 -- neither: the string goes to the left-overs
+deriving DecidableEq, Repr, Inhabited
+
+/-- an exact match always wins; otherwise the name must be the prefix of exactly one long option string -/
+def resolveLong (tbl : List OptSpec) (n : Str) : Resolved :=
+  match findLong tbl n with
+  | some o => .one o
+  | none =>
+    match longMatches tbl n with
+    | [] => .unknown
+    | [o] => .one o
+    | _ :: _ :: _ => .ambiguous
+
+def Resolved.isAmbiguous : Resolved → Bool
+  | .ambiguous => true
+  | _ => false
+
 /-- pairwise different (Boolean, executable) -/
 def distinctB {α} [BEq α] : List α → Bool
   | [] => true
@@ -140,12 +164,16 @@ deriving DecidableEq, Repr, Inhabited
 inductive Tok
   | word (w : Word)
   | short (c : Char)        -- `-c`
-  | long (n : Str)          -- `--name`
-  | other                   -- everything else (`--`, `--a=b`, `-ab`, empty string …): outside the fragment
+  | long (n : Str)          -- `--name` (an exact option string or an abbreviation; `n` is not empty)
+  | eq (n : Str) (v : Word) -- `--name=value`, split at the FIRST `=`; the value (possibly empty) with what the converters make of it
+  | other                   -- everything else (`--`, `-c=v`, `-ab`, empty string …): outside the fragment
 deriving DecidableEq, Repr, Inhabited
 
+/-- `--` is not an abbreviation of anything (argparse: "everything after it is positional"): a long token without a
+name is the same string and is outside the fragment as well -/
 def Tok.isOther : Tok → Bool
   | .other => true
+  | .long [] => true
   | _ => false
 
 inductive Atom
@@ -176,6 +204,8 @@ inductive ErrKind
   | needsValue              -- an option that takes a value is not followed by one
   | missing                 -- a required positional is absent
   | unrecognized            -- left-over arguments
+  | ambiguous               -- `--abc` / `--abc=v` is the prefix of two or more long options and equal to none
+  | explicitArg             -- `--flag=v`, `--help=v`: an option that takes no value was given one (`ignored explicit argument`)
 deriving DecidableEq, Repr, Inhabited
 
 inductive Action
@@ -211,7 +241,13 @@ deriving Repr, Inhabited
 
 def PState.addOpt (st : PState) (n : Str) (v : ArgVal) : PState := { st with opts := (n, v) :: st.opts }
 
-/-- options up to the next positional-looking string -/
+def dashdash : Str := ['-', '-']
+
+/-- options up to the next positional-looking string.  A long option may be abbreviated (`resolveLong`); an
+ambiguous abbreviation never gets here (`parseCmd` rejects the whole line first, as argparse's pre-pass does).
+A string that is no option of the command is left over (`unrecognized arguments`, reported when all else is fine).
+`--name=value` binds like `--name value`; an option that takes no value (`store_true`, help) answers
+`ignored explicit argument`; the value `--` is outside the fragment (argparse strips it and stores an empty list). -/
 def scanOpts (me : Str) (tbl : List OptSpec) : List Tok → PState → Scan
   | [], st => .cont st []
   | .other :: _, _ => .stop none
@@ -230,10 +266,12 @@ def scanOpts (me : Str) (tbl : List OptSpec) : List Tok → PState → Scan
             | none => .stop (some (.error .badValue))
             | some a => scanOpts me tbl rest' (st.addOpt p.name (.one a))
           | _ => .stop (some (.error .needsValue))
+  | .long [] :: _, _ => .stop none
   | .long n :: rest, st =>
-    match findLong tbl n with
-    | none => .stop none                  -- abbreviations are argparse's business
-    | some o =>
+    match resolveLong tbl n with
+    | .unknown => scanOpts me tbl rest { st with extras := true }
+    | .ambiguous => .stop (some (.error .ambiguous))
+    | .one o =>
       match o.param with
       | none => .stop (some (.help (some me)))
       | some p =>
@@ -244,6 +282,19 @@ def scanOpts (me : Str) (tbl : List OptSpec) : List Tok → PState → Scan
             | none => .stop (some (.error .badValue))
             | some a => scanOpts me tbl rest' (st.addOpt p.name (.one a))
           | _ => .stop (some (.error .needsValue))
+  | .eq n v :: rest, st =>
+    match resolveLong tbl n with
+    | .unknown => scanOpts me tbl rest { st with extras := true }
+    | .ambiguous => .stop (some (.error .ambiguous))
+    | .one o =>
+      match o.param with
+      | none => .stop (some (.error .explicitArg))
+      | some p =>
+        if p.kind = .flag then .stop (some (.error .explicitArg))
+        else if v.text = dashdash then .stop none
+        else match convert p.conv v with
+          | none => .stop (some (.error .badValue))
+          | some a => scanOpts me tbl rest (st.addOpt p.name (.one a))
 
 /-- one run of positional-looking strings -/
 def bindWords : List Tok → PState → Scan
@@ -293,8 +344,11 @@ def canonicalPos : List Param → Bool
 def initState (m : Member) : PState :=
   { posLeft := m.params.filter Param.isPos, bound := [], star := [], opts := [], extras := false }
 
-def unknownLong (tbl : List OptSpec) : Tok → Bool
-  | .long n => (findLong tbl n).isNone
+/-- argparse classifies every argument string before it consumes the first one; an ambiguous abbreviation anywhere
+behind the command word ends the parse there and then -/
+def ambiguousTok (tbl : List OptSpec) : Tok → Bool
+  | .long n => (resolveLong tbl n).isAmbiguous
+  | .eq n _ => (resolveLong tbl n).isAmbiguous
   | _ => false
 
 def startsWithWord : List Tok → Bool
@@ -304,7 +358,7 @@ def startsWithWord : List Tok → Bool
 def parseCmd (c : Cmd) (toks : List Tok) : Option Verdict :=
   let m := c.member
   let tbl := optTable m.params
-  if toks.any (unknownLong tbl) then none else
+  if toks.any (ambiguousTok tbl) then some (.error .ambiguous) else
   match scanOpts m.name tbl toks (initState m) with
   | .stop v => v
   | .cont st1 r1 =>
@@ -326,7 +380,8 @@ def parseLine (t : Table) (toks : List Tok) : Option Verdict :=
     | none => some (.error .unknownCommand)
     | some c => parseCmd c rest
   | .short c :: _ => if c = 'h' then some (.help none) else none
-  | .long n :: _ => if n = helpName then some (.help none) else none
+  | .long n :: _ => if n.isPrefixOf helpName then some (.help none) else none       -- `--h`, `--he`, `--hel`, `--help`
+  | .eq n _ :: _ => if n.isPrefixOf helpName then some (.error .explicitArg) else none
   | .other :: _ => none
 
 /-! ### dispatch (`_exec_method_and_respond`) and the reply rule -/
@@ -376,23 +431,41 @@ structure Choice where
   short : Option Char        -- write `-c` (must be the flag assigned to `p`); `none`: write the long form
   w     : Word               -- its value (a flag has none)
   a     : Atom               -- what the value converts to
+  abbr  : Option Str := none -- long form only: write `--abbr` instead of the full `--long-name`
+  eq    : Bool := false      -- long form of an option with a value only: write `--name=value` (one string)
 deriving Repr, Inhabited
+
+/-- the name written behind `--` -/
+def Choice.longName (c : Choice) : Str := c.abbr.getD (dash c.p.name)
 
 def Choice.tok (c : Choice) : Tok :=
   match c.short with
   | some f => .short f
-  | none => .long (dash c.p.name)
+  | none => .long c.longName
 
 def Choice.val (c : Choice) : ArgVal := if c.p.kind = .flag then .flag true else .one c.a
 
-def Choice.render (c : Choice) : List Tok := if c.p.kind = .flag then [c.tok] else [c.tok, .word c.w]
+def Choice.render (c : Choice) : List Tok :=
+  if c.p.kind = .flag then [c.tok]
+  else match c.short with
+    | some f => [.short f, .word c.w]
+    | none => if c.eq then [.eq c.longName c.w] else [.long c.longName, .word c.w]
+
+/-- `n` abbreviates the long option `full` of a parser with the options `tbl`: a non-empty prefix of it and of no
+other long option string (hence, unless it is `full` itself, equal to none either) -/
+def abbrevOk (tbl : List OptSpec) (n full : Str) : Prop :=
+  n ≠ [] ∧ n <+: full ∧ ∀ o ∈ tbl, n <+: o.long → o.long = full
 
 def renderOpts (cs : List Choice) : List Tok := cs.flatMap Choice.render
 
-/-- the choice names an option of the method, in a form the parser built for it, with a value its converter accepts -/
+/-- the choice names an option of the method, in a form the parser built for it (short flag, long option string, an
+unambiguous abbreviation of it, each of the long ones with the value behind a blank or behind `=`), with a value its
+converter accepts -/
 def Choice.ok (ps : List Param) (c : Choice) : Prop :=
   c.p ∈ ps ∧ c.p.isOpt = true ∧ (∀ f, c.short = some f → (c.p, some f) ∈ assignFlags ps [])
     ∧ (c.p.kind ≠ .flag → convert c.p.conv c.w = some c.a)
+    ∧ (∀ n, c.abbr = some n → abbrevOk (optTable ps) n (dash c.p.name))
+    ∧ (c.eq = true → c.w.text ≠ dashdash)
 
 /-- a positional argument string and what it converts to -/
 structure PosArg where
